@@ -35,4 +35,24 @@ PROPS = {
         assumptions=['step_rules/check_facts are assumed contracts over an abstract state (src/lib.rs:1118,1571 not verified)',
                      'errors: on Err the final state is not constrained by the contract'],
     ),
+    'C04': dict(
+        units=['driver'],
+        kani_quick=[],
+        kani_thorough=[],
+        design_ref='DESIGN.md section 4 (U-REBUILD, U-DISP) and section 5 C04',
+        level_text='Unbounded proof (Verus) of the driver obligation of C04 on the real egglog-bridge functions '
+                   'EGraph::{run_rules_inner, flush_updates_inner, rebuild (native branch), next_ts, inc_ts} and run_rules_impl: '
+                   'the database is canonical on EVERY exit path, Ok and Err alike, given that it was canonical on entry; the rebuild '
+                   'loop only stops after a pass in which container rebuild, table rebuild and row refresh all report no change, '
+                   'in that order and with that pass\'s dirty ids and timestamp; rebuild runs whenever the union-find grew. '
+                   'Per-table invariants (what one apply_rebuild pass does, key uniqueness in SortedWritesTable) are assumed contracts.',
+        level_note='Trusted (A-db): Database::{merge_all, run_rule_set} keep a canonical database canonical unless the union-find grew; '
+                   'a rebuild pass in which rebuild_containers, apply_rebuild and refresh_rows_for_values all report no change leaves '
+                   'the database canonical; inc_counter/read_counter; Query::build_cached_plan does not touch table contents; '
+                   'DenseIdMap/DenseIdMapWithReuse behave as maps; the non-native rebuild branches (rule-based rebuild, rebuild_parallel) '
+                   'are cut by R-CUTTAIL and shown unreachable from "the uf table supports native rebuild". Termination of the rebuild loop not claimed.',
+        assumptions=['canonical() is an abstract predicate; its establishment by one quiescent rebuild pass and its preservation by merge/run when '
+                     'the union-find did not grow are assumed contracts on core-relations (SortedWritesTable, Canonicalizer, containers)',
+                     'EGraph struct projected onto the fields the verified functions use'],
+    ),
 }
